@@ -276,7 +276,7 @@ Qed.
 (* ---------- histories ---------- *)
 
 Definition ordinary (e : event) : Prop :=
-  match e with Recv u _ => u_susp u = 0 | Expire _ => True end.
+  match e with Recv u _ => u_susp u = 0 | Expire _ => True | Lost _ => True end.
 
 Lemma expire_info st id : ns_info (expire st id) = ns_info st.
 Proof. reflexivity. Qed.
@@ -292,8 +292,9 @@ Proof.
   cbn [run]. destruct (step st e) as [st' a] eqn:Es.
   specialize (IH st' o Hr). destruct (run st' r) as [st'' as_]. cbn [fst] in *.
   eapply pair_le_trans; [|exact IH].
-  destruct e as [u rc|id]; simpl in Es.
+  destruct e as [u rc|id|c]; simpl in Es.
   - pose proof (info_monotone_step st u rc o He) as H. rewrite Es in H. exact H.
+  - inversion Es; subst. apply pair_le_refl.
   - inversion Es; subst. apply pair_le_refl.
 Qed.
 
@@ -302,7 +303,7 @@ Definition relays_id (x : N) (acts : list action) : bool :=
   existsb (fun a => match a with Relay _ u => u_id u =? x | _ => false end) acts.
 
 Definition no_expire (x : N) (e : event) : Prop :=
-  match e with Expire id => id <> x | Recv _ _ => True end.
+  match e with Expire id => id <> x | Recv _ _ => True | Lost _ => True end.
 
 Lemma relays_id_true x acts : relays_id x acts = true -> exists c u, In (Relay c u) acts /\ u_id u = x.
 Proof.
@@ -339,7 +340,7 @@ Qed.
 Lemma seen_mono_step st e x :
   no_expire x e -> mem_N x (ns_seen st) = true -> mem_N x (ns_seen (fst (step st e))) = true.
 Proof.
-  intros Hne Hx. destruct e as [u rc|id]; simpl.
+  intros Hne Hx. destruct e as [u rc|id|c]; simpl; [| |exact Hx].
   - unfold handle_update.
     destruct (u_origin u =? 0); [exact Hx|].
     destruct (negb (conns_pos (u_conns u))); [exact Hx|].
@@ -373,9 +374,10 @@ Proof.
   specialize (IH st' x Hr Hx'). destruct (run st' r) as [st'' as_]. cbn [snd] in *.
   cbn [count_relay_steps]. rewrite IH.
   destruct (relays_id x a) eqn:Er; [|reflexivity].
-  destruct e as [u rc|id]; simpl in Es.
+  destruct e as [u rc|id|c]; simpl in Es.
   - pose proof (relay_marks_seen st u rc x) as H. rewrite Es in H. cbn [fst snd] in H.
     destruct (H Er) as [Hf _]. congruence.
+  - inversion Es; subst. discriminate.
   - inversion Es; subst. discriminate.
 Qed.
 
@@ -392,9 +394,10 @@ Proof.
   pose proof (seen_never_relayed r st' x Hr) as Hz.
   destruct (run st' r) as [st'' as_]. cbn [snd] in *. cbn [count_relay_steps].
   destruct (relays_id x a) eqn:Er; [|lia].
-  destruct e as [u rc|id]; simpl in Es.
+  destruct e as [u rc|id|c]; simpl in Es.
   - pose proof (relay_marks_seen st u rc x) as H. rewrite Es in H. cbn [fst snd] in H.
     destruct (H Er) as [_ Ht]. rewrite (Hz Ht). lia.
+  - inversion Es; subst. discriminate.
   - inversion Es; subst. discriminate.
 Qed.
 
@@ -421,3 +424,8 @@ Proof.
   destruct (aget (ns_self st) (ns_known st)); [|reflexivity].
   now rewrite N.eqb_refl.
 Qed.
+
+(* losing a connection forgets nothing the node has learned: the stored pairs and the seen IDs are untouched *)
+Theorem conn_lost_keeps_knowledge st c :
+  ns_info (conn_lost st c) = ns_info st /\ ns_seen (conn_lost st c) = ns_seen st.
+Proof. split; reflexivity. Qed.
